@@ -3,7 +3,7 @@
 import ast
 
 from py2lean_types import (Unsupported, Impure, TInt, TBool, TStr, TNone, TRange, TErased, TList, TOpt, TTuple,
-                           TDict, TObj, TAbs, TExc, TUnion, TVar, TMaybe, INT, BOOL, STR, NONE, RANGE, ERASED,
+                           TDict, TObj, TAbs, TExc, TUnion, TVar, TMaybe, TBuilder, INT, BOOL, STR, NONE, RANGE, ERASED,
                            resolve, unify, join, coerce, proj, iter_elem)
 from py2lean_expr import src, indent, EXC, TyRef
 
@@ -46,7 +46,7 @@ def assigned_names(stmts):
             elif isinstance(n, ast.Expr) and isinstance(n.value, ast.Yield):
                 out.append("«yield»")
             elif isinstance(n, ast.Expr) and isinstance(n.value, ast.Call) and isinstance(n.value.func, ast.Attribute) \
-                    and n.value.func.attr in ("append", "pop", "insert", "extend", "add"):
+                    and n.value.func.attr in ("append", "pop", "insert", "extend", "add", "add_edge"):
                 tgt(n.value.func.value)
     seen = []
     for x in out:
@@ -149,6 +149,21 @@ class StmtMixin:
                 return self.expr(v.args[0], env, fin)
             if f.attr == "pop" and key in env and not v.args:
                 return self.pop_stmt(key, None, env, nxt)
+            if key in env and isinstance(resolve(env[key][1]), TBuilder) and resolve(env[key][1]).cmd == f.attr \
+                    and not v.keywords:
+                nm, bt = env[key]
+                bt = resolve(bt)
+                if len(v.args) != len(bt.cmd_types):
+                    raise Unsupported("arity of the command " + src(v))
+
+                def fin_c(vs):
+                    cs = [coerce(c, t, kt) for (c, t), kt in zip(vs, bt.cmd_types)]
+                    cmd = cs[0] if len(cs) == 1 else "(" + ", ".join(cs) + ")"
+                    env2 = dict(env)
+                    nm2 = self.lname(key)
+                    env2[key] = (nm2, bt)
+                    return "let {} := ({}.1, {}.2 ++ [{}])\n{}".format(nm2, nm, nm, cmd, nxt(env2))
+                return self.exprs(list(v.args), env, fin_c)
         if isinstance(v, ast.Call):
             # a call for its exceptions only (argument validators)
             return self.expr(v, env, lambda c, t: nxt(env))
@@ -288,11 +303,19 @@ class StmtMixin:
         return "".join(l + "\n" for l in lets) + nxt(env2)
 
     def is_erased_expr(self, e, env):
-        """an expression that only combines erased values / string constants (label texts)"""
-        names = [n for n in ast.walk(e) if isinstance(n, (ast.Name, ast.Attribute)) and src(n) in env]
-        if not names:
+        """a label text: an erased variable, or string constants / erased values combined with `+`, `*`,
+        `.format(…)`, `.join(…)` — never evaluated by the translation"""
+        def texty(x, top):
+            if isinstance(x, (ast.Name, ast.Attribute)):
+                return src(x) in env and isinstance(env[src(x)][1], TErased)
+            if isinstance(x, ast.Constant) and isinstance(x.value, str):
+                return not top              # a bare string constant is a value (e.g. an operator), not a label
+            if isinstance(x, ast.BinOp) and isinstance(x.op, (ast.Add, ast.Mult)):
+                return texty(x.left, False) or texty(x.right, False)
+            if isinstance(x, ast.Call) and isinstance(x.func, ast.Attribute) and x.func.attr in ("format", "join"):
+                return texty(x.func.value, False)
             return False
-        return any(isinstance(env[src(n)][1], TErased) for n in names)
+        return texty(e, True)
 
     def s_AugAssign(self, s, env, nxt):
         new = ast.Assign(targets=[s.target], value=ast.BinOp(left=_load(s.target), op=s.op, right=s.value))
